@@ -192,6 +192,40 @@ def metas_body(metas, trailing=False):
     return Body(elems)
 
 
+def respell(rng, item, p=0.12):
+    """Re-spell the options of an item without changing what the macro parses: a trailing comma after the last entry
+    of any list (`skip(Debug,)`, `Zeroize(crate = a,)`, `#[derive_where(skip, default,)]`), `crate = a::b` written as a
+    string and vice versa.  The Lean model sees the same input except for the commas of the attribute body itself."""
+    def meta(m):
+        if isinstance(m, MList):
+            if m.parsable and m.inner and rng.random() < p:
+                m.trailing = True
+            for x in m.inner:
+                meta(x)
+        elif isinstance(m, MNameValue):
+            if m.kind in ('path', 'str') and rng.random() < p:
+                m.kind = 'str' if m.kind == 'path' else 'path'
+
+    def body(b):
+        if b is None or b.notlist is not None:
+            return
+        for x in b.elems:
+            if not isinstance(x, str):
+                meta(x)
+        if b.elems and not isinstance(b.elems[-1], str) and b.gens is None and rng.random() < p:
+            b.elems.append(COMMA)
+    for a in item.attrs:
+        if a.kind in ('dw', 'dwq'):
+            body(a.body)
+    for v in item.variants:
+        for b in v.bodies:
+            body(b)
+        for f in v.fields:
+            for b in f.bodies:
+                body(b)
+    return item
+
+
 def traits_body(traits, gens=None, comma_before_semi=False, gen_trailing=False):
     """`#[derive_where(T1, T2; G1, G2)]`."""
     b = metas_body(traits, comma_before_semi and gens is not None)
